@@ -621,8 +621,10 @@ pub fn c07(r: &mut Rng, sz: &Sizes, out: &mut Vec<String>) {
 }
 
 /// shapes for the generator: inferred from random source sets, plus hand-built ones with ASCII keys
-fn gen_shapes(r: &mut Rng, sz: &Sizes) -> Vec<JsonShape> {
-    let mut out: Vec<JsonShape> = Vec::new();
+/// (shape, reachable): reachable shapes come out of `from_sources`; the others only feed the
+/// model/code comparison of the generator (the properties quantify over inferred shapes)
+fn gen_shapes(r: &mut Rng, sz: &Sizes) -> Vec<(JsonShape, bool)> {
+    let mut out: Vec<(JsonShape, bool)> = Vec::new();
     let keys = ["a", "b", "c", "id", "user_name", "camelCase", "key space", "type", "1a", "A", "x-y"];
     for i in 0..sz.histories / 2 {
         let mut h = rand_history(r, &keys[..5 + (i % 6)]);
@@ -631,13 +633,13 @@ fn gen_shapes(r: &mut Rng, sz: &Sizes) -> Vec<JsonShape> {
         }
         let srcs: Vec<String> = h.iter().map(|d| d.render(0)).collect();
         if let Ok(s) = JsonShape::from_sources(&srcs) {
-            out.push(s);
+            out.push((s, true));
         }
     }
-    out.extend(small_shapes());
-    out.extend(medium_shapes());
+    out.extend(small_shapes().into_iter().map(|s| (s, false)));
+    out.extend(medium_shapes().into_iter().map(|s| (s, false)));
     for i in 0..sz.shapes / 3 {
-        out.push(rand_shape_keys(r, 1 + i % 4, &keys));
+        out.push((rand_shape_keys(r, 1 + i % 4, &keys), false));
     }
     out
 }
@@ -668,9 +670,91 @@ fn rekey(s: &JsonShape, r: &mut Rng, keys: &[&str]) -> JsonShape {
 }
 
 pub fn gen_ops(r: &mut Rng, sz: &Sizes, out: &mut Vec<String>) {
-    for s in gen_shapes(r, sz) {
-        out.push(format!("gen\t{}", sx(&s)));
+    for (s, reachable) in gen_shapes(r, sz) {
+        out.push(format!("{}\t{}", if reachable { "gen" } else { "genx" }, sx(&s)));
     }
+}
+
+/// documents whose inferred shapes stay inside the fragment where the generated types are expected
+/// to read their sources back: non-empty objects with snake_case keys, no bare nulls at first
+fn clean_doc(r: &mut Rng, depth: usize) -> J {
+    let keys = ["a", "b", "c", "id", "user_name", "value", "x1", "inner"];
+    let scalar = |r: &mut Rng| match r.below(3) {
+        0 => J::Bool(r.chance(1, 2)),
+        1 => J::Num(r.pick(NUMS).to_string()),
+        _ => J::Str(r.pick(STRS).to_string()),
+    };
+    if depth == 0 {
+        return scalar(r);
+    }
+    match r.below(6) {
+        0 => scalar(r),
+        1 => {
+            // homogeneous array (possibly empty)
+            let proto = clean_doc(r, depth - 1);
+            let n = r.below(4);
+            J::Arr((0..n).map(|_| same_shape(r, &proto)).collect())
+        }
+        2 => {
+            // tuple: differently shaped scalars
+            let mut v = vec![J::Num("1".into()), J::Str("s".into())];
+            if r.chance(1, 2) {
+                v.push(J::Bool(true));
+            }
+            if r.chance(1, 3) {
+                v.push(clean_doc(r, depth - 1));
+            }
+            J::Arr(v)
+        }
+        _ => {
+            let n = 1 + r.below(4);
+            let mut ms: Vec<(String, J)> = Vec::new();
+            for _ in 0..n {
+                let k = r.pick(&keys).to_string();
+                if !ms.iter().any(|(k2, _)| *k2 == k) {
+                    ms.push((k, clean_doc(r, depth - 1)));
+                }
+            }
+            J::Obj(ms)
+        }
+    }
+}
+
+/// drops a member or replaces a member's value by null somewhere in the document
+fn loosen(r: &mut Rng, x: &J) -> J {
+    match x {
+        J::Obj(ms) if !ms.is_empty() => {
+            let i = r.below(ms.len());
+            let mut v = ms.clone();
+            match r.below(3) {
+                0 if v.len() > 1 => {
+                    v.remove(i);
+                }
+                1 => v[i].1 = J::Null,
+                _ => v[i].1 = loosen(r, &ms[i].1),
+            }
+            J::Obj(v)
+        }
+        J::Arr(xs) if !xs.is_empty() => {
+            let i = r.below(xs.len());
+            let mut v = xs.clone();
+            v[i] = loosen(r, &xs[i]);
+            J::Arr(v)
+        }
+        other => other.clone(),
+    }
+}
+
+fn clean_history(r: &mut Rng) -> Vec<J> {
+    let depth = 1 + r.below(3);
+    let proto = clean_doc(r, depth);
+    let n = 1 + r.below(4);
+    let mut h = vec![proto.clone()];
+    for _ in 1..n {
+        let d = same_shape(r, &proto);
+        h.push(if r.chance(1, 2) { loosen(r, &d) } else { d });
+    }
+    h
 }
 
 fn source_sets(r: &mut Rng, n: usize) -> Vec<Vec<String>> {
@@ -690,9 +774,10 @@ fn source_sets(r: &mut Rng, n: usize) -> Vec<Vec<String>> {
         vec!["1".to_string()],
         vec!["null".to_string(), "\"s\"".to_string()],
     ];
-    for _ in 0..n {
-        let h = rand_history(r, &keys);
-        out.push(h.iter().map(|d| d.render(0)).collect());
+    for i in 0..n {
+        let h = if i % 2 == 0 { clean_history(r) } else { rand_history(r, &keys) };
+        let style = if i % 7 == 0 { 2 } else { 0 };
+        out.push(h.iter().map(|d| d.render(style)).collect());
     }
     out
 }
